@@ -28,8 +28,21 @@ pub fn corpus(seed: u64, n: usize) -> Vec<Case> {
         if out.len() % 3 != 2 {
             let p = st_valid.new_tree(&mut runner).unwrap().current();
             if let Ok(b) = p.build() {
-                // sometimes leave a prefix-required header unsigned so that rule 9 names a header
                 out.push(b.case);
+                // a twin under the other canonicalisation options (same raw request target, re-signed): state
+                // that leaks between validations with different configurations shows up as order dependence
+                if out.len() % 2 == 0 {
+                    let mut q = p.clone();
+                    if out.len() % 4 == 0 {
+                        q.cfg.s3 = !q.cfg.s3;
+                    } else {
+                        q.cfg.fold = !q.cfg.fold;
+                    }
+                    // keep the request target identical to the original's
+                    if let Ok(signed) = crate::model::sign::sign(&b.base, &q.cfg, &q.spec) {
+                        out.push(Case { req: signed.req, cfg: q.cfg.clone(), prov: q.provider() });
+                    }
+                }
             }
         } else {
             let (q, sel, variant) = st_def.new_tree(&mut runner).unwrap().current();
@@ -47,6 +60,7 @@ pub fn corpus(seed: u64, n: usize) -> Vec<Case> {
                 if d.contains(&NoCarrier) && d.contains(&BothCarriers) {
                     d.retain(|x| *x != BothCarriers);
                 }
+                super::c13::reduce_signature_defects(&mut d);
             }
             let dc = DefectCase { query_carrier: q, defects: d.clone(), variant };
             let mut case = build(&dc, &d);
